@@ -283,15 +283,21 @@ def check_determinacy(ctx):
         if val is None:
             ctx.bad("C20.3", red, gen, f"the reducer replays `{x}.{fld}`, which _make_array never stores")
             return
+        anchor = dict_call
+        if isinstance(val, ast.Name):
+            # the pair was put into a local first: `getitem_args = (x, dim_str)`
+            d_ = c05._assignments_to(ma, val.id)
+            if len(d_) == 1 and d_[0][2] is None and isinstance(d_[0][1], ast.Tuple):
+                anchor, val = d_[0][0], d_[0][1]
         ok = isinstance(val, ast.Tuple) and len(val.elts) == 2
         if ok:
             a0, a1 = val.elts
             # first: the array-type parameter as received
-            ok0 = isinstance(a0, ast.Name) and a0.id == ma.params[0] and not _reassigned_before(ma, a0.id, dict_call)
+            ok0 = isinstance(a0, ast.Name) and a0.id == ma.params[0] and not _reassigned_before(ma, a0.id, anchor)
             # second: the dim string as received (a copy taken before the parameter is re-bound)
             ok1 = False
             if isinstance(a1, ast.Name):
-                if a1.id == ma.params[1] and not _reassigned_before(ma, a1.id, dict_call):
+                if a1.id == ma.params[1] and not _reassigned_before(ma, a1.id, anchor):
                     ok1 = True
                 else:
                     defs = c05._assignments_to(ma, a1.id)
